@@ -37,15 +37,32 @@ def gen_evparent(rng, tier):
         yield rng.choice(['P1', 'P1 P2']) + ' ;; ' + ' ; '.join(ops)
 
 def _valid_evparent(case):
-    # an exit must follow its enter (a swap can put it before)
-    entered = set()
+    """the history the registry-side model covers: an exit follows its enter; a span is closed only when it is not entered and
+    none of its children (by the parent it ACTUALLY got — a contextual parent is whatever is on top of the stack then) is alive"""
+    if ' ;; ' not in case: return False
+    stack = []; parent = {}; closed = set(); made = set()
     for o in case.split(' ;; ')[1].split(' ; '):
         w = o.split()
-        if w[0] == 'en': entered.add(w[1])
+        if w[0] == 'sp':
+            k = w[1]; p = w[4]
+            par = (stack[-1] if stack else None) if p == 'c' else (None if p == 'r' else (p if (p in made and p not in closed) else None))
+            parent[k] = par; made.add(k)
+        elif w[0] == 'en':
+            if w[1] not in made or w[1] in closed or w[1] in stack: return False
+            stack.append(w[1])
         elif w[0] == 'ex':
-            if w[1] not in entered: return False
-            entered.discard(w[1])
-        elif w[0] == 'cl' and w[1] in entered: return False
+            if w[1] not in stack: return False
+            stack.remove(w[1])
+        elif w[0] == 'cl':
+            k = w[1]
+            if k not in made or k in closed or k in stack: return False
+            if any(par == k and c not in closed for c, par in parent.items()): return False
+            closed.add(k)
+        elif w[0] == 'rc':
+            if w[1] not in made or w[1] in closed: return False
+        elif w[0] == 'ev':
+            p = w[3]
+            if p not in 'cr' and (p not in made or p in closed): return False
     return True
 
 _ev = Stream('evparent', 'h_lookup', mode='modellookup', gen=lambda rng, tier: (c for c in gen_evparent(rng, tier) if _valid_evparent(c)),
